@@ -292,7 +292,7 @@ main(int argc, char **argv)
 			continue;
 		}
 		/* data-phase start states, built by scripted prefixes */
-		for (phase = 0; phase < 10; phase ++) {
+		for (phase = 0; phase < 12; phase ++) {
 			world_snap base;
 			world_take(&base);
 			switch (phase) {
@@ -310,12 +310,16 @@ main(int argc, char **argv)
 			case 7: tp_act_close(&W.c); tp_act_sendrec(&W.c, &W.c2s, 100000);
 				tp_act_recvrec(&W.s, &W.c2s, 100000); tp_act_recvrec(&W.s, &W.c2s, 100000); break;   /* peer got close_notify */
 			case 8: tp_act_reneg(&W.c); break;                     /* renegotiation requested by client */
+			case 10: tp_act_write(&W.c, 9); tp_act_flush(&W.c, 0); tp_act_sendrec(&W.c, &W.c2s, 100000);
+				tp_act_flush(&W.s, 1); tp_act_recvrec(&W.s, &W.c2s, 5); break;   /* forced empty record pending at the server, header of a client record already accepted */
+			case 11: tp_act_write(&W.s, 9); tp_act_flush(&W.s, 0); tp_act_sendrec(&W.s, &W.s2c, 100000);
+				tp_act_flush(&W.c, 1); tp_act_recvrec(&W.c, &W.s2c, 5); break;   /* the same, roles swapped */
 			case 9: tp_act_reneg(&W.s); tp_act_sendrec(&W.s, &W.s2c, 100000);
 				tp_act_recvrec(&W.c, &W.s2c, 100000); tp_act_recvrec(&W.c, &W.s2c, 100000); break;   /* HelloRequest received */
 			}
 			if ((startno ++ % nworkers) == worker) {
-				start_has_reneg = phase >= 8;
-				explore_from_here(depth, "data-phase", phase);
+				start_has_reneg = phase == 8 || phase == 9;
+				explore_from_here(phase >= 10 ? depth + 1 : depth, "data-phase", phase);
 				start_has_reneg = 0;
 			}
 			world_restore(&base);
